@@ -105,12 +105,57 @@ func usesOfGlobal(f *ssa.Function, collect func(g *ssa.Global, u globalUse)) {
 }
 
 func c20(c *core.Ctx) map[string]interface{} {
-	c.Explanation = "Static shared-state analysis for concurrent use of the codecs and security functions (C20). Decided: (R20.state) over the VTA whole-program call graph, every package-level variable of the repository's own packages that any function reachable from the listed entry points (NGAP/APER/NAS encode+decode, NASEncode/NASDecode, key derivation, NASEncrypt/NASMacCalculate) touches is classified; a variable is accepted only if it is immutable after initialisation: written only by package initialisers, never address-escaping to a callee, and of a kind whose loaded value cannot be mutated through (scalars, arrays/slices of scalars that are only indexed, reflect.Type descriptors, logrus entries which are internally locked). Any other reachable package-level variable - including synchronised caches such as sync.Map or hand-rolled one-entry caches - is shared mutable state and is reported with its writers/escapes; (R20.go) the repository's own packages start no goroutine, use no channel and no sync primitive (so there is no internal ordering to argue about); (R20.arg) informational: callee-side writes to caller-owned buffers. For code without goroutines and locks, absence of shared mutable state reachable from the entry points is the whole content of 'race-free and schedule-independent for different UEs'. (R13.pure) message construction shares no buffer between messages except the announced PLMN octets (which the encoder only reads): the encoder masks the padding bits of a BIT STRING in the caller's buffer, so a BIT STRING buffer shared between the messages of two UEs would be written concurrently inside the codec. NOT decided: races inside third-party dependencies (logrus, standard library)."
+	c.Explanation = "Static shared-state analysis for concurrent use of the codecs and security functions (C20). Decided: (R20.state) over the VTA whole-program call graph, every package-level variable of the repository's own packages that any function reachable from the listed entry points (NGAP/APER/NAS encode+decode, NASEncode/NASDecode, key derivation, NASEncrypt/NASMacCalculate) touches is classified; a variable is accepted only if it is immutable after initialisation: written only by package initialisers, never address-escaping to a callee, and of a kind whose loaded value cannot be mutated through (scalars, arrays/slices of scalars that are only indexed, reflect.Type descriptors, logrus entries which are internally locked). Any other reachable package-level variable - including synchronised caches such as sync.Map or hand-rolled one-entry caches - is shared mutable state and is reported with its writers/escapes; (R20.go) the repository's own packages start no goroutine, use no channel and no sync primitive (so there is no internal ordering to argue about); (R20.arg) informational: callee-side writes to caller-owned buffers. For code without goroutines and locks, absence of shared mutable state reachable from the entry points is the whole content of 'race-free and schedule-independent for different UEs'. (R13.pure) message construction shares no buffer between messages except the announced PLMN octets (which the encoder only reads): the encoder masks the padding bits of a BIT STRING in the caller's buffer, so a BIT STRING buffer shared between the messages of two UEs would be written concurrently inside the codec. (R20.msg) no function of tglib stores through a *nas.Message parameter (callers of different UEs may hand the same UE-independent message to the protection at once). NOT decided: races inside third-party dependencies (logrus, standard library)."
 	c.Assumptions = []string{"logrus.Entry/Logger are safe for concurrent use (internal mutex)", "reflect.Type values are immutable", "distinct UEs use distinct RanUeContext values and distinct message buffers (the property's own hypothesis)"}
 	r20state(c)
 	r20go(c)
 	r13pure(c)
+	r20msg(c)
 	return nil
+}
+
+// r20msg: the uplink protection reads the NAS message it is given and writes only into the UE
+// context and into buffers of its own. A message that does not depend on the UE (Registration
+// Complete, Service Request) may be shared by the callers of different UEs; a store through the
+// message parameter makes their encodes interfere.
+func r20msg(c *core.Ctx) {
+	const R = "R20.msg"
+	c.Rule(R, "the NAS protection functions of tglib do not store through their *nas.Message parameter (an input that callers of different UEs may share)")
+	sp := c.P.SSAPkg(pTglib)
+	n := 0
+	for _, f := range allFuncsOf(sp) {
+		var idx []int
+		for i, p := range f.Params {
+			if derefNamed(p.Type()) == pNas+".Message" {
+				if _, isPtr := p.Type().Underlying().(*types.Pointer); isPtr {
+					idx = append(idx, i)
+				}
+			}
+		}
+		if len(idx) == 0 || len(f.Blocks) == 0 {
+			continue
+		}
+		c.Analysed(core.FuncName(f))
+		p := core.NewPather(f)
+		for _, i := range idx {
+			n++
+			pre := fmt.Sprintf("p%d.", i)
+			bad := ""
+			var pos = f.Pos()
+			for _, b := range f.Blocks {
+				for _, in := range b.Instrs {
+					if st, ok := in.(*ssa.Store); ok {
+						if ap := p.Path(st.Addr); strings.HasPrefix(ap, pre) || ap == strings.TrimSuffix(pre, ".") {
+							bad, pos = ap, st.Pos()
+						}
+					}
+				}
+			}
+			c.Check(bad == "", R, shortFn(f)+":"+f.Params[i].Name(), pos, "read only", "%s stores into %s of the message it was given: two UEs protecting the same (UE-independent) message at once overwrite each other's header fields, and the caller's message changes under it", shortFn(f), bad)
+		}
+	}
+	c.Sites(n)
+	c.Floor(R, n, 1)
 }
 
 func trustedImmutableKind(t types.Type) (bool, string) {
